@@ -367,7 +367,17 @@ def wheel_obligations(ctx):
         emit_violation(ctx, "proof", err, dict(failing_input=None, broken="generated obligation PcGen.WheelObl: " + err.split("\n")[0]))
 
 
-def streams(ctx, audit=True):
+def within_declared_preconditions(op):
+    """C16 replays these histories on the ENABLE_ASSERT build: only histories whose constructor arguments satisfy the
+    ASSERTs the constructor declares (low % 30 == 0, segment_size % 240 == 0 — what the load balancers are PROVED to
+    hand out, C09 `aligned`) say anything about public inputs; the release constructor re-aligns other sizes silently."""
+    p = op.split()
+    if p[0] != "sieve":
+        return True
+    return int(p[2]) % 30 == 0 and int(p[3]) % 240 == 0
+
+
+def streams(ctx, audit=True, wild_histories=True):
     if audit:
         wheel_obligations(ctx)
         lean_audit(ctx, "PcProps.C17Sieve")
@@ -379,7 +389,8 @@ def streams(ctx, audit=True):
         if cfg == "A" or not ctx.quick:
             mirror += small_scope(ctx, cfg, dumps=True)
         mirror += random_disciplined(ctx, cfg, nrand, dumps=True)
-        mirror += [wild(ctx.rng, cfg) for _ in range(nwild)]
+        if wild_histories:   # deliberately outside the declared preconditions (ASSERTs): never replayed on the assert build (C16)
+            mirror += [wild(ctx.rng, cfg) for _ in range(nwild)]
         sts.append(Stream("sieve-mirror-" + cfg, mirror, oracle=False, env=env, classify=classify, timeout=3000))
         spec = []
         if cfg == "P" or not ctx.quick:
